@@ -464,6 +464,7 @@ def corpus_parse(tier, seed, focus='C01', nm=None):
         if has_default and k % 10 == 1:
             kw.update(parse_err_ty='PErr', parse_err_fn='perr')
         A(vs, **kw).attr_layout = ['joined', 'split', 'split_rev'][k % 3]
+    out.extend(random_string_programs(seed, 150, nm, 'parse'))
     return out
 
 
@@ -553,6 +554,7 @@ def corpus_print(tier, seed, derives=PRINTERS, with_forward=True, with_prefix=Tr
         if k % 5 == 2:
             kw['const_into_str'] = True
         A(vs, **kw).attr_layout = ['joined', 'split', 'split_rev'][k % 3]
+    out.extend(random_string_programs(seed, 120, nm, 'print'))
     return out
 
 
@@ -927,4 +929,105 @@ def corpus_phf(tier, seed):
             A(vs, **kw)
         except Exception:
             pass
+    return out
+
+
+# ---------------------------------------------------------------------------------------
+# Randomised programs for the string family (thorough tier): every attribute axis drawn independently, literals from a pool of
+# shapes that have mattered (case variants, empty, non-ASCII lower/upper, escaped braces, source-escaped characters, prefixes of each
+# other, identifier-like literals, equal lengths).  Non-overlap is enforced by rejection.
+
+LIT_SHAPES = [
+    lambda w: w, lambda w: w.upper(), lambda w: w.title(), lambda w: w.swapcase(), lambda w: w + ' ' + w, lambda w: w + '!',
+    lambda w: w[:1], lambda w: w + '7', lambda w: '7' + w, lambda w: w + '-' + w[::-1], lambda w: '\u00e9' + w, lambda w: '\u00c9' + w.upper(),
+    lambda w: w + '\u00df', lambda w: w + '{{}}', lambda w: '{{' + w + '}}', lambda w: w + '"q"', lambda w: w + '\\', lambda w: w + '\n',
+    lambda w: w.title() + w.title(), lambda w: w + '_' + w, lambda w: ' ' + w, lambda w: w + '\t',
+]
+RWORDS = ['alpha', 'bravo', 'charlie', 'delta', 'echo', 'foxtrot', 'golf', 'hotel', 'india', 'juliet', 'kilo', 'lima', 'mike', 'november']
+RIDENTS = ['RedFox', 'BlueSky', 'Green', 'DarkGray2', 'HTTPPort', 'Yellow', 'X', 'Orange_Peel', 'teal', 'NASARocket', 'Dark', 'DarkBlue', 'V4l2', 'Id', 'KeepMe', 'I2C']
+
+def random_string_programs(seed, n, nm, family='parse', tries=40):
+    from . import oracle
+    rnd = random.Random(seed * 2654435761 % (1 << 31) + 77)
+    styles = [None, None] + ALL_STYLES
+    out = []
+    def overlaps(p):
+        seen_cs, seen_ci = {}, {}
+        for v in p.variants:
+            if v.disabled or v.default:
+                continue
+            ci = oracle.is_ci(p, v)
+            for sp in oracle.spellings(p, v):
+                for (q, w, cj) in list(seen_cs.values()):
+                    pass
+            for sp in oracle.spellings(p, v):
+                for (q, wid, cj) in [(q, wid, cj) for (q, wid, cj) in seen_all if wid != v.ident]:
+                    if (ci or cj) and oracle.fold(sp) == oracle.fold(q):
+                        return True
+                    if not (ci or cj) and sp == q:
+                        return True
+            for sp in oracle.spellings(p, v):
+                seen_all.append((sp, v.ident, ci))
+        return False
+    k = 0
+    while len(out) < n and k < n * tries:
+        k += 1
+        nv = rnd.randint(1, 6)
+        ids = rnd.sample(RIDENTS, nv)
+        vs = []
+        have_default = False
+        for i, ident in enumerate(ids):
+            w = rnd.choice(RWORDS)
+            lits = [rnd.choice(LIT_SHAPES)(w) for _ in range(4)]
+            if rnd.random() < 0.08:
+                lits[0] = ''
+            if rnd.random() < 0.08:
+                lits[0] = ident
+            mode = rnd.choice(['none', 'none', 'ser1', 'ser2', 'ser3', 'ts', 'both'])
+            ser, ts = [], None
+            if mode == 'ser1': ser = lits[:1]
+            elif mode == 'ser2': ser = lits[:2]
+            elif mode == 'ser3': ser = lits[:3]
+            elif mode == 'ts': ts = lits[0]
+            elif mode == 'both': ser, ts = lits[:2], lits[2]
+            if family == 'print' and ser:
+                # canonical names: distinct lengths unless a tie is wanted
+                if rnd.random() < 0.8:
+                    ser = [x for j, x in enumerate(ser) if len(x.encode()) not in [len(y.encode()) for y in ser[:j]]]
+            kind = rnd.choice(['unit', 'unit', 'tuple', 'named'])
+            tys = {'unit': [], 'tuple': [rnd.choice(TYPES[:5])], 'named': [rnd.choice(TYPES[:5]), rnd.choice(TYPES[:5])]}[kind]
+            aci = rnd.choice([None, None, True, False]) if family != 'print' else None
+            v = V(ident, kind, tys, ser=ser, ts=ts, aci=aci, bare=(aci is True and rnd.random() < 0.5), disabled=(rnd.random() < 0.15))
+            if kind == 'tuple' and tys == ['u8'] and rnd.random() < 0.3 and family != 'print':
+                v.default_with = 'dw_u8'
+            if family != 'print' and not have_default and rnd.random() < 0.12:
+                v = V(ident, rnd.choice(['tuple', 'named']), ['Cap'], names=['raw'], default=True, ser=ser if rnd.random() < 0.3 else [], ts=None,
+                      disabled=(rnd.random() < 0.1), aci=aci)
+                have_default = not v.disabled
+            vs.append(v)
+        kw = dict(serialize_all=rnd.choice(styles))
+        if family != 'print':
+            kw['aci'] = rnd.random() < 0.35
+            if rnd.random() < 0.25:
+                kw.update(parse_err_ty='PErr', parse_err_fn='perr')
+        else:
+            if rnd.random() < 0.3:
+                kw['prefix'] = rnd.choice(['pre.', '', '\u00fc_', 'NS::', ' '])
+            if rnd.random() < 0.3:
+                kw['const_into_str'] = True
+        try:
+            p = parse_prog(Namer(nm.k), vs, stem='Rs' if family != 'print' else 'Rp2',
+                           derives=('EnumString',) if family != 'print' else PRINTERS, **kw)
+        except Exception:
+            continue
+        p.attr_layout = rnd.choice(['joined', 'split', 'split_rev'])
+        seen_all = []
+        if family != 'print' and overlaps(p):
+            continue
+        # printed names must not contain placeholders
+        if family == 'print' and any(oracle.has_placeholder(nm_) for v in p.variants for nm_ in oracle.canonical_names(p, v)):
+            continue
+        nm.k += 1
+        p.tags.append('random')
+        out.append(p)
     return out
